@@ -73,6 +73,11 @@ Qed.
 (* ================================================================== *)
 (* 2. the abstract invariant                                           *)
 
+Lemma incl_app_comm_names (PA PB : list param) : incl (names_of (PB ++ PA)) (names_of (PA ++ PB)).
+Proof.
+  intros x Hx. unfold names_of in *. rewrite map_app in *. apply in_app_or in Hx. apply in_or_app. tauto.
+Qed.
+
 Section Abstract.
 (* PA / PB: all positional parameters of the two sides; KN: every name a
    keyword-only output may carry *)
@@ -95,11 +100,6 @@ Record AInv (on : list name) (od : list bool) (kn : list name) (ra rb : list par
   a_dl : dsuf ra;
   a_dr : dsuf rb
 }.
-
-Lemma incl_app_comm_names : incl (names_of (PB ++ PA)) (names_of (PA ++ PB)).
-Proof.
-  intros x Hx. unfold names_of in *. rewrite map_app in *. apply in_app_or in Hx. apply in_or_app. tauto.
-Qed.
 
 (* one output parameter named after the head of the left list, both heads consumed *)
 Lemma step_pair on od kn a ra b rb on' od' :
@@ -130,7 +130,7 @@ Proof.
     pose proof (Forall_inv X) as X1. pose proof (Forall_inv Y) as Y1. unfold isopt in X1, Y1. rewrite X1, Y1. reflexivity.
   - intros Hin. apply in_app_or in Hin. destruct Hin as [Hin|[Hin|[]]].
     + destruct (a_opt0 Hin) as [X Y]. split; [exact (Forall_inv_tail X)|exact (Forall_inv_tail Y)].
-    + symmetry in Hin. apply andb_true_iff in Hin. destruct Hin as [Ha Hb].
+    + apply andb_true_iff in Hin. destruct Hin as [Ha Hb].
       cbn [dsuf] in a_dl0, a_dr0. split; [apply a_dl0; exact Ha|apply a_dr0; exact Hb].
   - cbn [dsuf] in a_dl0. tauto.
   - cbn [dsuf] in a_dr0. tauto.
@@ -174,7 +174,7 @@ Proof.
   - apply dsufb_snoc; [exact a_ds0|]. intros Hin. destruct (a_opt0 Hin) as [X Y]. exact (Forall_inv X).
   - intros Hin. apply in_app_or in Hin. destruct Hin as [Hin|[Hin|[]]].
     + apply a_opt1. exact Hin.
-    + split; [|constructor]. cbn [dsuf] in a_dl0. apply a_dl0. symmetry. exact Hin.
+    + split; [|constructor]. cbn [dsuf] in a_dl0. apply a_dl0. exact Hin.
 Qed.
 
 (* the head of the left list becomes a keyword-only output *)
@@ -195,3 +195,779 @@ Proof.
     apply PN_KN. unfold names_of. rewrite map_app. apply in_or_app. left. apply in_map. apply a_inl0. left. reflexivity.
 Qed.
 End Abstract.
+
+Lemma AInv_sym PA PB KN on od kn ra rb :
+  AInv PA PB KN on od kn ra rb -> AInv PB PA KN on od kn rb ra.
+Proof.
+  intros H. destruct H. constructor; auto.
+  - intros x Hx. destruct (a_rem0 x Hx). tauto.
+  - intros x Hx. apply (incl_app_comm_names PB PA x). apply a_pn0. exact Hx.
+  - apply pos_agree_sym. exact a_agree0.
+  - intros Hin. destruct (a_opt0 Hin). tauto.
+Qed.
+
+(* ================================================================== *)
+(* 3. the invariant on merger states                                   *)
+
+Definition outs (st : mstate) : list param := m_pos st ++ m_pok st.
+Definition pn (st : mstate) : list name := names_of (outs st).
+Definition pd (st : mstate) : list bool := map has_def (outs st).
+Definition kn (st : mstate) : list name := names_of (m_kwo st).
+
+Lemma names_set_kind k ps : names_of (map (set_kind k) ps) = names_of ps.
+Proof. unfold names_of. rewrite map_map. reflexivity. Qed.
+Lemma defs_set_kind k ps : map has_def (map (set_kind k) ps) = map has_def ps.
+Proof. rewrite map_map. reflexivity. Qed.
+
+Lemma names_od_set d p y : In y (names_of (od_set d p)) <-> In y (names_of d) \/ y = pname p.
+Proof.
+  induction d as [|q d IH]; cbn [od_set names_of map In].
+  - split; [intros [<-|[]]; auto|intros [[]| ->]; auto].
+  - destruct (N.eqb_spec (pname p) (pname q)) as [E|E]; cbn [names_of map In].
+    + rewrite E. split; [intros [<-|H]; auto|intros [[<-|H]| ->]; auto].
+    + fold (names_of (od_set d p)). fold (names_of d). rewrite IH. split; [intros [<-|[H| ->]]; auto|intros [[<-|H]| ->]; auto].
+Qed.
+
+Lemma names_od_update u : forall d y, In y (names_of (od_update d u)) <-> In y (names_of d) \/ In y (names_of u).
+Proof.
+  unfold od_update. induction u as [|p u IH]; intros d y; cbn [fold_left names_of map In]; [tauto|].
+  fold (names_of u). fold (names_of (fold_left od_set u (od_set d p))). rewrite IH, names_od_set. split.
+  - intros [[H|H]|H]; auto.
+  - intros [H|[H|H]]; auto.
+Qed.
+
+Lemma nodup_od_set d p : NoDup (names_of d) -> NoDup (names_of (od_set d p)).
+Proof.
+  induction d as [|q d IH]; intros H; cbn [od_set names_of map]; [constructor; [intros []|constructor]|].
+  cbn [names_of map] in H. inversion H as [|? ? Hq Hd]; subst.
+  destruct (N.eqb_spec (pname p) (pname q)) as [E|E]; cbn [names_of map].
+  - rewrite E. constructor; assumption.
+  - constructor; [|apply IH; exact Hd]. fold (names_of (od_set d p)). rewrite names_od_set.
+    intros [Hin|Hin]; [contradiction|]. apply E. symmetry. exact Hin.
+Qed.
+
+Lemma nodup_od_update u : forall d, NoDup (names_of d) -> NoDup (names_of (od_update d u)).
+Proof.
+  unfold od_update. induction u as [|p u IH]; intros d H; cbn [fold_left]; [exact H|].
+  apply IH. apply nodup_od_set. exact H.
+Qed.
+
+Section Walk.
+Variables l r : sorted.
+Let PA := posargs l ++ pokargs l.
+Let PB := posargs r ++ pokargs r.
+Let KN := names_of (PA ++ PB) ++ names_of (kwoargs l) ++ names_of (kwoargs r).
+
+Lemma PN_KN : incl (names_of (PA ++ PB)) KN.
+Proof. intros x Hx. unfold KN. apply in_or_app. left. exact Hx. Qed.
+Lemma PN_KN' : incl (names_of (PB ++ PA)) KN.
+Proof. intros x Hx. apply PN_KN. apply (incl_app_comm_names PA PB x). exact Hx. Qed.
+
+Definition AI (st : mstate) (ra rb : list param) : Prop :=
+  AInv PA PB KN (pn st) (pd st) (kn st) ra rb.
+(* the list of the side being walked first *)
+Definition AIs (s : side) (st : mstate) (mine oth : list param) : Prop :=
+  match s with L => AI st mine oth | R => AI st oth mine end.
+
+Lemma AIs_pair s st st' a x b y :
+  AIs s st (a :: x) (b :: y) ->
+  pn st' = pn st ++ [pname a] -> pd st' = pd st ++ [has_def a && has_def b] -> kn st' = kn st ->
+  AIs s st' x y.
+Proof.
+  unfold AIs, AI. intros H E1 E2 E3. rewrite E3. destruct s.
+  - eapply step_pair; eauto.
+  - apply AInv_sym. eapply step_pair; [apply AInv_sym; exact H|exact E1|exact E2].
+Qed.
+
+Lemma AIs_keep s st st' a x :
+  AIs s st (a :: x) [] ->
+  pn st' = pn st ++ [pname a] -> pd st' = pd st ++ [has_def a] -> kn st' = kn st ->
+  AIs s st' x [].
+Proof.
+  unfold AIs, AI. intros H E1 E2 E3. rewrite E3. destruct s.
+  - eapply step_keep; eauto.
+  - apply AInv_sym. eapply step_keep; [apply AInv_sym; exact H|exact E1|exact E2].
+Qed.
+
+Lemma AIs_drop s st st' a x :
+  AIs s st (a :: x) [] -> pn st' = pn st -> pd st' = pd st -> kn st' = kn st -> AIs s st' x [].
+Proof.
+  unfold AIs, AI. intros H E1 E2 E3. rewrite E1, E2, E3. destruct s.
+  - eapply AInv_drop; eauto.
+  - apply AInv_sym. eapply AInv_drop. apply AInv_sym. exact H.
+Qed.
+
+Lemma AIs_conv s st st' a x :
+  AIs s st (a :: x) [] -> pn st' = pn st -> pd st' = pd st ->
+  (forall y, In y (kn st') <-> In y (kn st) \/ y = pname a) -> AIs s st' x [].
+Proof.
+  unfold AIs, AI. intros H E1 E2 E3. rewrite E1, E2. destruct s.
+  - eapply step_conv; [exact PN_KN|exact H|exact E3].
+  - apply AInv_sym. eapply step_conv; [exact PN_KN'|apply AInv_sym; exact H|exact E3].
+Qed.
+
+Lemma has_def_concile a b : has_def (concile a b) = has_def a && has_def b.
+Proof. apply concile_optional_iff. Qed.
+Lemma has_def_set_kind k p : has_def (set_kind k p) = has_def p.
+Proof. reflexivity. Qed.
+Lemma pnames_set_kind k ps : map pname (map (set_kind k) ps) = map pname ps.
+Proof. rewrite map_map. reflexivity. Qed.
+
+Ltac prj1 :=
+  unfold pn, pd, kn, outs, names_of;
+  cbn [m_pos m_pok m_kwo set_pos set_pok set_kwo set_src add_src1 add_src2 excl_va excl_vk set_unm].
+Ltac prj2 :=
+  rewrite ?app_nil_r, ?map_app, ?pnames_set_kind, ?defs_set_kind; cbn [map];
+  rewrite ?has_def_set_kind, ?has_def_concile; cbn [pname set_kind concile];
+  rewrite <- ?app_assoc, ?app_nil_r; try reflexivity.
+Ltac prj Hk := prj1; rewrite ?Hk; prj2.
+Ltac prj0 := prj1; prj2.
+
+Lemma W_unb_pos1 s e x y st st' y' :
+  m_pok st = [] -> AIs s st (e :: x) y ->
+  unb_pos1 l r s e y st = Ok (st', y') ->
+  AIs s st' x y' /\ m_pok st' = [].
+Proof.
+  intros Hk H E. unfold unb_pos1 in E. destruct y as [|o conv'].
+  - destruct (isSome (varargs (other l r s))).
+    + inversion E; subst. split; [|destruct s; exact Hk].
+      eapply AIs_keep; [exact H| | | ]; destruct s; prj Hk.
+    + destruct (negb (has_def e)); [discriminate|]. inversion E; subst. split; [|exact Hk].
+      eapply AIs_drop; [exact H| | | ]; reflexivity.
+  - inversion E; subst. split; [|destruct (N.eqb (pname o) (pname e)); destruct s; exact Hk].
+    eapply AIs_pair; [exact H| | | ]; destruct (N.eqb (pname o) (pname e)); destruct s; prj Hk.
+Qed.
+
+Lemma W_unb_pos_all s ps : forall x y st st' y',
+  m_pok st = [] -> AIs s st (ps ++ x) y ->
+  unb_pos_all l r s ps y st = Ok (st', y') ->
+  AIs s st' x y' /\ m_pok st' = [].
+Proof.
+  induction ps as [|p ps IH]; intros x y st st' y' Hk H E; cbn [unb_pos_all] in E.
+  - inversion E; subst. auto.
+  - apply bind_ok in E. destruct E as [[st1 y1] [E1 E2]]. cbn [fst snd] in E2.
+    destruct (W_unb_pos1 s p (ps ++ x) y st st1 y1 Hk H E1) as [H1 Hk1].
+    exact (IH x y1 st1 st' y' Hk1 H1 E2).
+Qed.
+
+Lemma W_zip_pos lp : forall rp il ir st st' il' ir',
+  m_pok st = [] -> AI st (lp ++ il) (rp ++ ir) ->
+  zip_pos l r lp rp il ir st = Ok (st', il', ir') ->
+  AI st' il' ir' /\ m_pok st' = [].
+Proof.
+  induction lp as [|a lp IH]; intros rp il ir st st' il' ir' Hk H E.
+  - cbn [zip_pos] in E. apply bind_ok in E. destruct E as [[st1 y1] [E1 E2]]. cbn [fst snd] in E2.
+    inversion E2; subst.
+    exact (W_unb_pos_all R rp ir' il st st' il' Hk H E1).
+  - destruct rp as [|b rp]; cbn [zip_pos] in E.
+    + apply bind_ok in E. destruct E as [[st1 y1] [E1 E2]]. cbn [fst snd] in E2. inversion E2; subst.
+      exact (W_unb_pos_all L (a :: lp) il' ir st st' ir' Hk H E1).
+    + eapply IH; [| |exact E].
+      * destruct (N.eqb (pname a) (pname b)); exact Hk.
+      * change (AIs L ?s ?x ?y) with (AI s x y).
+        eapply (AIs_pair L); [exact H| | | ]; destruct (N.eqb (pname a) (pname b)); prj Hk.
+Qed.
+
+Lemma W_unb_pok1 s e x st st' :
+  AIs s st (e :: x) [] -> unb_pok1 l r s e st = Ok st' -> AIs s st' x [].
+Proof.
+  intros H E. unfold unb_pok1 in E.
+  destruct (find_param (pname e) (unm st match s with L => R | R => L end)) as [q|].
+  - inversion E; subst. eapply AIs_conv; [exact H| | | ]; destruct s; prj0.
+    + intros y. fold (names_of (od_set (m_kwo st) (set_kind KO (concile e q)))). fold (names_of (m_kwo st)).
+      rewrite names_od_set. reflexivity.
+    + intros y. fold (names_of (od_set (m_kwo st) (set_kind KO (concile e q)))). fold (names_of (m_kwo st)).
+      rewrite names_od_set. reflexivity.
+  - destruct (isSome (varargs (other l r s)) && isSome (varkwargs (other l r s))).
+    { inversion E; subst. eapply AIs_keep; [exact H| | | ]; destruct s; prj0. }
+    destruct (isSome (varkwargs (other l r s))).
+    { inversion E; subst. eapply AIs_conv; [exact H| | | ]; destruct s; prj0.
+      - intros y. fold (names_of (od_set (m_kwo st) (set_kind KO e))). fold (names_of (m_kwo st)).
+        rewrite names_od_set. reflexivity.
+      - intros y. fold (names_of (od_set (m_kwo st) (set_kind KO e))). fold (names_of (m_kwo st)).
+        rewrite names_od_set. reflexivity. }
+    destruct (isSome (varargs (other l r s))).
+    { inversion E; subst. eapply AIs_keep; [exact H| | | ]; destruct s; prj0. }
+    destruct (negb (has_def e)); [discriminate|]. inversion E; subst.
+    eapply AIs_drop; [exact H| | | ]; reflexivity.
+Qed.
+
+Lemma W_unb_pok_all s ps : forall st st',
+  AIs s st ps [] -> unb_pok_all l r s ps st = Ok st' -> AIs s st' [] [].
+Proof.
+  induction ps as [|p ps IH]; intros st st' H E; cbn [unb_pok_all] in E.
+  - inversion E; subst. exact H.
+  - apply bind_ok in E. destruct E as [st1 [E1 E2]].
+    exact (IH st1 st' (W_unb_pok1 s p ps st st1 H E1) E2).
+Qed.
+
+Lemma W_zip_pok il : forall ir st st',
+  AI st il ir -> zip_pok l r il ir st = Ok st' -> AI st' [] [].
+Proof.
+  induction il as [|a il IH]; intros ir st st' H E.
+  - cbn [zip_pok] in E. exact (W_unb_pok_all R ir st st' H E).
+  - destruct ir as [|b ir]; cbn [zip_pok] in E.
+    + exact (W_unb_pok_all L (a :: il) st st' H E).
+    + eapply IH; [|exact E].
+      eapply (AIs_pair L); [exact H| | | ]; destruct (N.eqb (pname a) (pname b)); prj0.
+Qed.
+
+(* ---- the kinds of the output, duplicate-free keyword-only output, origin of
+   the unmatched keyword-only parameters ---- *)
+Definition isPO (p : param) : Prop := pkind p = PO.
+Definition isPK (p : param) : Prop := pkind p = PK.
+Definition isKO (p : param) : Prop := pkind p = KO.
+
+Record KIc (pos pok kwo lu ru : list param) : Prop := {
+  k_pos : Forall isPO pos;
+  k_pok : exists a b, pok = a ++ b /\ Forall isPO a /\ Forall isPK b;
+  k_kwo : Forall isKO kwo;
+  k_nd : NoDup (names_of kwo);
+  k_lu : incl lu (kwoargs l);
+  k_ru : incl ru (kwoargs r)
+}.
+Definition KI (st : mstate) : Prop :=
+  KIc (m_pos st) (m_pok st) (m_kwo st) (m_lunm st) (m_runm st).
+
+Lemma Forall_map_set_kind k (P : param -> Prop) ps :
+  (forall p, P (set_kind k p)) -> Forall P (map (set_kind k) ps).
+Proof. intros H. induction ps; cbn; constructor; auto. Qed.
+
+Lemma KIc_pos_snoc pos pok kwo lu ru c :
+  KIc pos pok kwo lu ru -> pkind c = PO -> KIc (pos ++ [c]) pok kwo lu ru.
+Proof. intros [] Hc. constructor; auto. apply Forall_app. split; [assumption|constructor; [exact Hc|constructor]]. Qed.
+
+Lemma KIc_pok_snoc pos pok kwo lu ru c :
+  KIc pos pok kwo lu ru -> pkind c = PK -> KIc pos (pok ++ [c]) kwo lu ru.
+Proof.
+  intros [] Hc. constructor; auto. destruct k_pok0 as [a [b [E [Ha Hb]]]]. exists a, (b ++ [c]).
+  rewrite E, <- app_assoc. repeat split; auto. apply Forall_app. split; [assumption|constructor; [exact Hc|constructor]].
+Qed.
+
+Lemma KIc_pok_po pos pok kwo lu ru c :
+  KIc pos pok kwo lu ru -> KIc pos (map (set_kind PO) pok ++ [set_kind PO c]) kwo lu ru.
+Proof.
+  intros []. constructor; auto. exists (map (set_kind PO) pok ++ [set_kind PO c]), []. rewrite app_nil_r.
+  repeat split; [|constructor]. apply Forall_app. split; [apply Forall_map_set_kind; reflexivity|].
+  constructor; [reflexivity|constructor].
+Qed.
+
+Lemma KIc_flush pos pok kwo lu ru c :
+  KIc pos pok kwo lu ru -> KIc (pos ++ map (set_kind PO) pok ++ [set_kind PO c]) [] kwo lu ru.
+Proof.
+  intros []. constructor; auto.
+  - apply Forall_app. split; [assumption|]. apply Forall_app. split; [apply Forall_map_set_kind; reflexivity|].
+    constructor; [reflexivity|constructor].
+  - exists [], []. repeat split; constructor.
+Qed.
+
+Lemma KIc_kwo_set pos pok kwo lu ru c :
+  KIc pos pok kwo lu ru -> pkind c = KO -> KIc pos pok (od_set kwo c) lu ru.
+Proof. intros [] Hc. constructor; auto. - apply od_set_forall; assumption. - apply nodup_od_set. assumption. Qed.
+
+Lemma KIc_lu pos pok kwo lu ru lu' : KIc pos pok kwo lu ru -> incl lu' (kwoargs l) -> KIc pos pok kwo lu' ru.
+Proof. intros [] H. constructor; auto. Qed.
+Lemma KIc_ru pos pok kwo lu ru ru' : KIc pos pok kwo lu ru -> incl ru' (kwoargs r) -> KIc pos pok kwo lu ru'.
+Proof. intros [] H. constructor; auto. Qed.
+
+Lemma incl_remove_param x ps : incl (remove_param x ps) ps.
+Proof.
+  induction ps as [|p ps IH]; cbn [remove_param]; [apply incl_refl|].
+  destruct (N.eqb x (pname p)); [apply incl_tl; exact IH|]. intros y [<-|Hy]; [left; reflexivity|right; apply IH; exact Hy].
+Qed.
+
+Lemma incl_od_set d p (X : list param) : incl d X -> In p X -> incl (od_set d p) X.
+Proof.
+  induction d as [|q d IH]; intros Hd Hp; cbn [od_set].
+  - intros y [<-|[]]. exact Hp.
+  - destruct (N.eqb (pname p) (pname q)).
+    + intros y [<-|Hy]; [exact Hp|apply Hd; right; exact Hy].
+    + intros y [<-|Hy]; [apply Hd; left; reflexivity|]. apply IH; [|exact Hp|exact Hy]. intros z Hz. apply Hd. right. exact Hz.
+Qed.
+
+Ltac kred := unfold KI;
+  cbn [m_pos m_pok m_kwo m_lunm m_runm set_pos set_pok set_kwo set_src add_src1 add_src2 excl_va excl_vk set_unm].
+
+Lemma K_unb_pos1 s e y st st' y' :
+  KI st -> pkind e = PO -> unb_pos1 l r s e y st = Ok (st', y') -> KI st' /\ incl y' y.
+Proof.
+  intros H He E. unfold unb_pos1 in E. destruct y as [|o conv'].
+  - destruct (isSome (varargs (other l r s))).
+    + inversion E; subst. split; [|apply incl_refl]. destruct s; kred; apply KIc_pos_snoc; assumption.
+    + destruct (negb (has_def e)); [discriminate|]. inversion E; subst. split; [exact H|apply incl_refl].
+  - inversion E; subst. split; [|apply incl_tl, incl_refl].
+    destruct (N.eqb (pname o) (pname e)); destruct s; kred; apply KIc_pos_snoc; assumption.
+Qed.
+
+Lemma K_unb_pos_all s ps : forall y st st' y',
+  KI st -> Forall isPO ps -> unb_pos_all l r s ps y st = Ok (st', y') -> KI st' /\ incl y' y.
+Proof.
+  induction ps as [|p ps IH]; intros y st st' y' H HF E; cbn [unb_pos_all] in E.
+  - inversion E; subst. split; [exact H|apply incl_refl].
+  - apply bind_ok in E. destruct E as [[st1 y1] [E1 E2]]. cbn [fst snd] in E2.
+    destruct (K_unb_pos1 s p y st st1 y1 H (Forall_inv HF) E1) as [H1 I1].
+    destruct (IH y1 st1 st' y' H1 (Forall_inv_tail HF) E2) as [H2 I2].
+    split; [exact H2|]. intros z Hz. apply I1, I2, Hz.
+Qed.
+
+Lemma K_zip_pos lp : forall rp il ir st st' il' ir',
+  KI st -> Forall isPO lp -> Forall isPO rp ->
+  zip_pos l r lp rp il ir st = Ok (st', il', ir') -> KI st' /\ incl il' il /\ incl ir' ir.
+Proof.
+  induction lp as [|a lp IH]; intros rp il ir st st' il' ir' H Hl Hr E.
+  - cbn [zip_pos] in E. apply bind_ok in E. destruct E as [[st1 y1] [E1 E2]]. cbn [fst snd] in E2.
+    inversion E2; subst. destruct (K_unb_pos_all R rp il st st' il' H Hr E1) as [X1 X2]. split; [exact X1|split; [exact X2|apply incl_refl]].
+  - destruct rp as [|b rp]; cbn [zip_pos] in E.
+    + apply bind_ok in E. destruct E as [[st1 y1] [E1 E2]]. cbn [fst snd] in E2. inversion E2; subst.
+      destruct (K_unb_pos_all L (a :: lp) ir st st' ir' H Hl E1) as [X1 X2]. split; [exact X1|split; [apply incl_refl|exact X2]].
+    + eapply IH; [|exact (Forall_inv_tail Hl)|exact (Forall_inv_tail Hr)|exact E].
+      destruct (N.eqb (pname a) (pname b)); kred; apply KIc_pos_snoc; try assumption; exact (Forall_inv Hl).
+Qed.
+
+Lemma K_unb_pok1 s e st st' :
+  KI st -> pkind e = PK -> unb_pok1 l r s e st = Ok st' -> KI st'.
+Proof.
+  intros H He E. unfold unb_pok1 in E.
+  destruct (find_param (pname e) (unm st match s with L => R | R => L end)) as [q|].
+  - inversion E; subst. destruct s; cbn [unm]; kred.
+    + apply KIc_kwo_set; [|reflexivity]. eapply KIc_ru; [exact H|].
+      intros z Hz. apply incl_remove_param in Hz. destruct H. apply k_ru0. exact Hz.
+    + apply KIc_kwo_set; [|reflexivity]. eapply KIc_lu; [exact H|].
+      intros z Hz. apply incl_remove_param in Hz. destruct H. apply k_lu0. exact Hz.
+  - destruct (isSome (varargs (other l r s)) && isSome (varkwargs (other l r s))).
+    { inversion E; subst. destruct s; kred; apply KIc_pok_snoc; assumption. }
+    destruct (isSome (varkwargs (other l r s))).
+    { inversion E; subst. destruct s; kred; apply KIc_kwo_set; try assumption; reflexivity. }
+    destruct (isSome (varargs (other l r s))).
+    { inversion E; subst. destruct s; kred; apply KIc_flush; assumption. }
+    destruct (negb (has_def e)); [discriminate|]. inversion E; subst. exact H.
+Qed.
+
+Lemma K_unb_pok_all s ps : forall st st',
+  KI st -> Forall isPK ps -> unb_pok_all l r s ps st = Ok st' -> KI st'.
+Proof.
+  induction ps as [|p ps IH]; intros st st' H HF E; cbn [unb_pok_all] in E.
+  - inversion E; subst. exact H.
+  - apply bind_ok in E. destruct E as [st1 [E1 E2]].
+    exact (IH st1 st' (K_unb_pok1 s p st st1 H (Forall_inv HF) E1) (Forall_inv_tail HF) E2).
+Qed.
+
+Lemma K_zip_pok il : forall ir st st',
+  KI st -> Forall isPK il -> Forall isPK ir -> zip_pok l r il ir st = Ok st' -> KI st'.
+Proof.
+  induction il as [|a il IH]; intros ir st st' H Hl Hr E.
+  - cbn [zip_pok] in E. exact (K_unb_pok_all R ir st st' H Hr E).
+  - destruct ir as [|b ir]; cbn [zip_pok] in E.
+    + exact (K_unb_pok_all L (a :: il) st st' H Hl E).
+    + eapply IH; [|exact (Forall_inv_tail Hl)|exact (Forall_inv_tail Hr)|exact E].
+      destruct (N.eqb (pname a) (pname b)); kred; [apply KIc_pok_snoc|apply KIc_pok_po]; try assumption.
+      exact (Forall_inv Hl).
+Qed.
+
+(* ---- what validity and role consistency of the inputs give ---- *)
+Hypothesis HKl : kinds_ok l.
+Hypothesis HKr : kinds_ok r.
+Hypothesis HNl : NoDup (names_of (flatten l)).
+Hypothesis HNr : NoDup (names_of (flatten r)).
+Hypothesis HR1 : forall p q, In p (flatten l) -> In q (flatten r) -> pname p = pname q -> pkind p = pkind q.
+Hypothesis HR2 : pos_agree PA PB.
+Hypothesis HDl : dsuf PA.
+Hypothesis HDr : dsuf PB.
+
+Definition inab (p : param) : Prop := In p (flatten l) \/ In p (flatten r).
+
+(* a name has one kind across both inputs *)
+Lemma cls_sep p q : inab p -> inab q -> pname p = pname q -> pkind p = pkind q.
+Proof.
+  intros [Hp|Hp] [Hq|Hq] E.
+  - rewrite (nodup_names_inj _ p q HNl Hp Hq E). reflexivity.
+  - apply HR1; assumption.
+  - symmetry. apply HR1; [assumption|assumption|symmetry; exact E].
+  - rewrite (nodup_names_inj _ p q HNr Hp Hq E). reflexivity.
+Qed.
+
+Lemma in_PA p : In p PA -> In p (flatten l) /\ (pkind p = PO \/ pkind p = PK).
+Proof.
+  destruct HKl as (H1 & H2 & _). rewrite Forall_forall in H1, H2.
+  unfold PA, flatten. intros H. apply in_app_or in H. destruct H as [H|H].
+  - split; [apply in_or_app; left; exact H|left; apply H1; exact H].
+  - split; [apply in_or_app; right; apply in_or_app; left; exact H|right; apply H2; exact H].
+Qed.
+Lemma in_PB p : In p PB -> In p (flatten r) /\ (pkind p = PO \/ pkind p = PK).
+Proof.
+  destruct HKr as (H1 & H2 & _). rewrite Forall_forall in H1, H2.
+  unfold PB, flatten. intros H. apply in_app_or in H. destruct H as [H|H].
+  - split; [apply in_or_app; left; exact H|left; apply H1; exact H].
+  - split; [apply in_or_app; right; apply in_or_app; left; exact H|right; apply H2; exact H].
+Qed.
+Lemma in_kwo_l p : In p (kwoargs l) -> In p (flatten l) /\ pkind p = KO.
+Proof.
+  destruct HKl as (_ & _ & _ & H4 & _). rewrite Forall_forall in H4. intros H. split; [|apply H4; exact H].
+  unfold flatten. do 3 (apply in_or_app; right). apply in_or_app. left. exact H.
+Qed.
+Lemma in_kwo_r p : In p (kwoargs r) -> In p (flatten r) /\ pkind p = KO.
+Proof.
+  destruct HKr as (_ & _ & _ & H4 & _). rewrite Forall_forall in H4. intros H. split; [|apply H4; exact H].
+  unfold flatten. do 3 (apply in_or_app; right). apply in_or_app. left. exact H.
+Qed.
+
+Lemma PN_witness x : In x (names_of (PA ++ PB)) ->
+  exists p, inab p /\ pname p = x /\ (pkind p = PO \/ pkind p = PK).
+Proof.
+  intros H. apply in_map_iff in H. destruct H as [p [E Hp]]. exists p. apply in_app_or in Hp.
+  destruct Hp as [Hp|Hp]; [destruct (in_PA p Hp)|destruct (in_PB p Hp)]; unfold inab; auto.
+Qed.
+
+Lemma KN_witness x : In x KN ->
+  exists p, inab p /\ pname p = x /\ (pkind p = PO \/ pkind p = PK \/ pkind p = KO).
+Proof.
+  unfold KN. intros H. apply in_app_or in H. destruct H as [H|H].
+  - destruct (PN_witness x H) as [p [A [B C]]]. exists p. tauto.
+  - apply in_app_or in H. destruct H as [H|H]; apply in_map_iff in H; destruct H as [p [E Hp]]; exists p;
+      [destruct (in_kwo_l p Hp)|destruct (in_kwo_r p Hp)]; unfold inab; auto.
+Qed.
+
+(* ---- first loop: matched keyword-only parameters ---- *)
+Lemma kwo_match_proj lk : forall st,
+  m_pos (kwo_match l r lk st) = m_pos st /\ m_pok (kwo_match l r lk st) = m_pok st /\
+  forall y, In y (kn (kwo_match l r lk st)) -> In y (kn st) \/ In y (names_of lk).
+Proof.
+  induction lk as [|p lk IH]; intros st; cbn [kwo_match]; [auto|].
+  match goal with |- context [kwo_match l r lk ?s] => destruct (IH s) as (E1 & E2 & E3) end.
+  rewrite E1, E2. destruct (find_param (pname p) (kwoargs r)) as [q|]; (split; [reflexivity|split; [reflexivity|]]);
+    intros y Hy; apply E3 in Hy; cbn [names_of map In]; fold (names_of lk).
+  - destruct Hy as [Hy|Hy]; [|tauto]. unfold kn in Hy. cbn [m_kwo set_kwo set_src] in Hy.
+    apply names_od_set in Hy. cbn [pname concile] in Hy. destruct Hy as [Hy| ->]; [left; exact Hy|right; left; reflexivity].
+  - destruct Hy as [Hy|Hy]; [left; exact Hy|tauto].
+Qed.
+
+Lemma K_kwo_match lk : forall st, KI st -> incl lk (kwoargs l) -> KI (kwo_match l r lk st).
+Proof.
+  induction lk as [|p lk IH]; intros st H Hi; cbn [kwo_match]; [exact H|].
+  assert (Hp : In p (kwoargs l)) by (apply Hi; left; reflexivity).
+  apply IH; [|intros z Hz; apply Hi; right; exact Hz].
+  destruct (find_param (pname p) (kwoargs r)) as [q|]; kred.
+  - apply KIc_kwo_set; [exact H|]. cbn [pkind concile]. apply (in_kwo_l p Hp).
+  - eapply KIc_lu; [exact H|]. apply incl_od_set; [destruct H; assumption|exact Hp].
+Qed.
+
+Definition st0 : mstate := mkM [] [] [] [] false false false false [] [].
+
+Lemma KI_st0 : KI st0.
+Proof. constructor; cbn; try constructor. - exists [], []. repeat split; constructor. - intros x []. - intros x []. Qed.
+
+Lemma r_unmatched_incl : incl (r_unmatched l r) (kwoargs r).
+Proof. unfold r_unmatched. intros x Hx. apply filter_In in Hx. tauto. Qed.
+
+Definition st2 : mstate := set_unm (kwo_match l r (kwoargs l) st0) R (r_unmatched l r).
+
+Lemma KI_st2 : KI st2.
+Proof.
+  unfold st2. pose proof (K_kwo_match (kwoargs l) st0 KI_st0 (incl_refl _)) as H.
+  kred. eapply KIc_ru; [exact H|apply r_unmatched_incl].
+Qed.
+
+Lemma nodup_PA : NoDup (names_of PA).
+Proof.
+  pose proof HNl as H. unfold flatten in H. rewrite app_assoc in H. unfold names_of in H. rewrite map_app in H.
+  apply nodup_app_l in H. exact H.
+Qed.
+Lemma nodup_PB : NoDup (names_of PB).
+Proof.
+  pose proof HNr as H. unfold flatten in H. rewrite app_assoc in H. unfold names_of in H. rewrite map_app in H.
+  apply nodup_app_l in H. exact H.
+Qed.
+
+Lemma AI_st2 : AI st2 PA PB /\ m_pok st2 = [].
+Proof.
+  destruct (kwo_match_proj (kwoargs l) st0) as (E1 & E2 & E3).
+  assert (P1 : pn st2 = []) by (unfold pn, outs, st2; cbn [m_pos m_pok set_unm]; rewrite E1, E2; reflexivity).
+  assert (P2 : pd st2 = []) by (unfold pd, outs, st2; cbn [m_pos m_pok set_unm]; rewrite E1, E2; reflexivity).
+  assert (P3 : forall y, In y (kn st2) -> In y (names_of (kwoargs l))).
+  { intros y Hy. unfold kn, st2 in Hy. cbn [m_kwo set_unm] in Hy. apply E3 in Hy. destruct Hy as [[]|Hy]. exact Hy. }
+  split; [|unfold st2; cbn [m_pok set_unm]; exact E2].
+  unfold AI. rewrite P1, P2. constructor; auto.
+  - constructor.
+  - intros x [[]|Hx]. apply P3 in Hx. apply in_map_iff in Hx. destruct Hx as [p [E Hp]].
+    destruct (in_kwo_l p Hp) as [Fp Kp]. split; intros Hin; apply in_map_iff in Hin; destruct Hin as [q [E' Hq]].
+    + destruct (in_PA q Hq) as [Fq Kq].
+      assert (X : pkind q = pkind p) by (apply cls_sep; [left; exact Fq|left; exact Fp|congruence]).
+      rewrite Kp in X. destruct Kq; congruence.
+    + destruct (in_PB q Hq) as [Fq Kq].
+      assert (X : pkind q = pkind p) by (apply cls_sep; [right; exact Fq|left; exact Fp|congruence]).
+      rewrite Kp in X. destruct Kq; congruence.
+  - intros x [].
+  - intros x Hx. apply P3 in Hx. unfold KN. apply in_or_app. right. apply in_or_app. left. exact Hx.
+  - exact nodup_PA.
+  - exact nodup_PB.
+  - apply incl_refl.
+  - apply incl_refl.
+  - exact I.
+  - intros [].
+Qed.
+
+(* ---- after the two zips ---- *)
+Record FI (st : mstate) : Prop := {
+  f_nd : NoDup (pn st);
+  f_dis : forall x, In x (pn st) -> ~ In x (kn st);
+  f_pn : incl (pn st) (names_of (PA ++ PB));
+  f_kn : incl (kn st) KN;
+  f_ds : dsufb (pd st)
+}.
+
+Lemma FI_of_AI st : AI st [] [] -> FI st.
+Proof. intros []. constructor; auto. Qed.
+
+Lemma fold_src_fields (s : side) u : forall st,
+  let st' := fold_left (fun a p => add_src1 l r a (pname p) s) u st in
+  m_pos st' = m_pos st /\ m_pok st' = m_pok st /\ m_kwo st' = m_kwo st /\
+  m_lunm st' = m_lunm st /\ m_runm st' = m_runm st.
+Proof.
+  induction u as [|p u IH]; intros st; cbn [fold_left]; [auto 10|].
+  destruct (IH (add_src1 l r st (pname p) s)) as (A & B & C & D & E). cbv zeta. rewrite A, B, C, D, E. auto 10.
+Qed.
+
+Lemma unm_incl st s : KI st -> incl (unm st s) (kwoargs (my l r s)).
+Proof. intros []. destruct s; assumption. Qed.
+
+Lemma unmatched_kwo_cases s st st' :
+  unmatched_kwo l r s st = Ok st' ->
+  st' = st \/
+  (m_pos st' = m_pos st /\ m_pok st' = m_pok st /\ m_kwo st' = od_update (m_kwo st) (unm st s) /\
+   m_lunm st' = m_lunm st /\ m_runm st' = m_runm st).
+Proof.
+  unfold unmatched_kwo. destruct (unm st s) as [|q u] eqn:Eu; [intros E; inversion E; auto|].
+  destruct (isSome (varkwargs (other l r s))).
+  - intros E. inversion E; subst. right.
+    destruct (fold_src_fields s (q :: u) (set_kwo st (od_update (m_kwo st) (q :: u)))) as (A & B & C & D & F).
+    cbv zeta in *. destruct s; cbn [excl_vk m_pos m_pok m_kwo m_lunm m_runm]; rewrite ?A, ?B, ?C, ?D, ?F; auto 10.
+  - destruct (forallb has_def (q :: u)); intros E; inversion E; auto.
+Qed.
+
+Lemma FI_unmatched s st st' : FI st -> KI st -> unmatched_kwo l r s st = Ok st' -> FI st'.
+Proof.
+  intros HF HK E. apply unmatched_kwo_cases in E. destruct E as [->|(A & B & C & _)]; [exact HF|].
+  pose proof (unm_incl st s HK) as Hu.
+  assert (Pn : pn st' = pn st) by (unfold pn, outs; rewrite A, B; reflexivity).
+  assert (Pd : pd st' = pd st) by (unfold pd, outs; rewrite A, B; reflexivity).
+  assert (Kn : forall y, In y (kn st') <-> In y (kn st) \/ In y (names_of (unm st s))).
+  { intros y. unfold kn. rewrite C. apply names_od_update. }
+  assert (W : forall y, In y (names_of (unm st s)) -> exists q, inab q /\ pname q = y /\ pkind q = KO).
+  { intros y Hy. apply in_map_iff in Hy. destruct Hy as [q [Eq Hq]]. apply Hu in Hq. exists q.
+    destruct s; cbn [my] in Hq; [destruct (in_kwo_l q Hq)|destruct (in_kwo_r q Hq)]; unfold inab; auto. }
+  destruct HF. constructor; rewrite ?Pn, ?Pd; auto.
+  - intros x Hx Hk. apply Kn in Hk. destruct Hk as [Hk|Hk]; [exact (f_dis0 x Hx Hk)|].
+    destruct (W x Hk) as [q [Iq [Nq Kq]]]. destruct (PN_witness x (f_pn0 x Hx)) as [p [Ip [Np Kp]]].
+    assert (X : pkind p = pkind q) by (apply cls_sep; congruence). rewrite Kq in X. destruct Kp; congruence.
+  - intros x Hx. apply Kn in Hx. destruct Hx as [Hx|Hx]; [apply f_kn0; exact Hx|].
+    apply in_map_iff in Hx. destruct Hx as [q [Eq Hq]]. apply Hu in Hq. unfold KN. apply in_or_app. right.
+    apply in_or_app. destruct s; cbn [my] in Hq; [left|right]; rewrite <- Eq; apply in_map; exact Hq.
+Qed.
+
+Lemma K_unmatched s st st' : KI st -> unmatched_kwo l r s st = Ok st' -> KI st'.
+Proof.
+  intros HK E. pose proof (unm_incl st s HK) as Hu.
+  apply unmatched_kwo_cases in E. destruct E as [->|(A & B & C & D & F)]; [exact HK|].
+  unfold KI. rewrite A, B, C, D, F. destruct HK. constructor; auto.
+  - apply od_update_P; [exact k_kwo0|]. apply Forall_forall. intros q Hq. apply Hu in Hq.
+    destruct s; cbn [my] in Hq; [apply (in_kwo_l q Hq)|apply (in_kwo_r q Hq)].
+  - apply nodup_od_update. exact k_nd0.
+Qed.
+
+(* ---- classification of positional-only-kinded parameters ---- *)
+Lemma split_po_prefix_app a : forall b,
+  Forall isPO a -> Forall isPK b -> split_po_prefix (a ++ b) = (a, b).
+Proof.
+  induction a as [|p a IH]; intros b Ha Hb; cbn [app].
+  - apply split_po_prefix_pk. exact Hb.
+  - cbn [split_po_prefix]. unfold is_kind, kind_eqb. rewrite (Forall_inv Ha). cbn.
+    rewrite (IH b (Forall_inv_tail Ha) Hb). reflexivity.
+Qed.
+
+Lemma normalise_spec st : KI st ->
+  Forall isPO (m_pos (normalise_pok st)) /\ Forall isPK (m_pok (normalise_pok st)) /\
+  outs (normalise_pok st) = outs st /\ m_kwo (normalise_pok st) = m_kwo st.
+Proof.
+  intros []. destruct k_pok0 as [a [b [E [Ha Hb]]]]. unfold normalise_pok, outs.
+  rewrite E, (split_po_prefix_app a b Ha Hb). cbn [m_pos m_pok m_kwo set_pos set_pok].
+  repeat split; auto; [apply Forall_app; auto|rewrite app_assoc; reflexivity].
+Qed.
+
+(* ---- star parameters ---- *)
+Lemma add_star_spec xl xr sl sr st o st' :
+  add_star l r xl xr sl sr st = (o, st') ->
+  m_pos st' = m_pos st /\ m_pok st' = m_pok st /\ m_kwo st' = m_kwo st /\
+  forall v, o = Some v ->
+    (exists a, sl = Some a /\ pname v = pname a /\ pkind v = pkind a) \/ sr = Some v.
+Proof.
+  unfold add_star. destruct sl as [a|], sr as [b|]; try (intros E; inversion E; subst; repeat split; auto; discriminate).
+  destruct (negb xl && negb xr).
+  - intros E. inversion E; subst. destruct (N.eqb (pname a) (pname b)); repeat split; auto;
+      intros v Hv; inversion Hv; subst; left; exists a; auto.
+  - destruct (negb xl); intros E; inversion E; subst; repeat split; auto; intros v Hv; inversion Hv; subst.
+    + left. exists v. auto.
+    + right. reflexivity.
+Qed.
+
+(* ---- assembling the final list ---- *)
+Lemma ksorted_homog k ps : Forall (fun p => pkind p = k) ps -> ksorted ps.
+Proof.
+  induction 1 as [|p ps Hp Hps IH]; cbn [ksorted]; [exact I|]. split; [|exact IH].
+  eapply Forall_impl; [|exact Hps]. cbv beta. intros q Hq. rewrite Hp, Hq. lia.
+Qed.
+
+Lemma ksorted_block k a b :
+  Forall (fun p => pkind p = k) a -> ksorted b ->
+  Forall (fun q => (kind_rank k <= kind_rank (pkind q))%nat) b -> ksorted (a ++ b).
+Proof.
+  intros Ha Hb Hab. apply ksorted_app. split; [eapply ksorted_homog; exact Ha|]. split; [exact Hb|].
+  rewrite Forall_forall in Ha, Hab. intros p q Hp Hq. rewrite (Ha p Hp). apply Hab. exact Hq.
+Qed.
+
+Lemma opt_kind k o : (forall v : param, o = Some v -> pkind v = k) -> Forall (fun p => pkind p = k) (opt_list o).
+Proof. intros H. destruct o as [v|]; cbn; [constructor; [apply H; reflexivity|constructor]|constructor]. Qed.
+
+Lemma ksorted_blocks pos pok va kwo vk :
+  Forall isPO pos -> Forall isPK pok -> (forall v, va = Some v -> pkind v = VP) ->
+  Forall isKO kwo -> (forall v, vk = Some v -> pkind v = VK) ->
+  ksorted (pos ++ pok ++ opt_list va ++ kwo ++ opt_list vk) /\
+  Forall (fun q => is_positional q = false) (opt_list va ++ kwo ++ opt_list vk).
+Proof.
+  intros H1 H2 H3 H4 H5. apply opt_kind in H3. apply opt_kind in H5.
+  assert (R5 : forall n, (n <= 4)%nat -> Forall (fun q => (n <= kind_rank (pkind q))%nat) (opt_list vk)).
+  { intros n Hn. eapply Forall_impl; [|exact H5]. cbv beta. intros q ->. exact Hn. }
+  assert (R4 : forall n, (n <= 3)%nat -> Forall (fun q => (n <= kind_rank (pkind q))%nat) (kwo ++ opt_list vk)).
+  { intros n Hn. apply Forall_app. split; [|apply R5; lia]. eapply Forall_impl; [|exact H4]. cbv beta. unfold isKO. intros q ->. exact Hn. }
+  assert (R3 : forall n, (n <= 2)%nat -> Forall (fun q => (n <= kind_rank (pkind q))%nat) (opt_list va ++ kwo ++ opt_list vk)).
+  { intros n Hn. apply Forall_app. split; [|apply R4; lia]. eapply Forall_impl; [|exact H3]. cbv beta. intros q ->. exact Hn. }
+  assert (R2 : forall n, (n <= 1)%nat -> Forall (fun q => (n <= kind_rank (pkind q))%nat) (pok ++ opt_list va ++ kwo ++ opt_list vk)).
+  { intros n Hn. apply Forall_app. split; [|apply R3; lia]. eapply Forall_impl; [|exact H2]. cbv beta. unfold isPK. intros q ->. exact Hn. }
+  split.
+  - apply (ksorted_block PO); [exact H1| |apply R2; cbn; lia].
+    apply (ksorted_block PK); [exact H2| |apply R3; cbn; lia].
+    apply (ksorted_block VP); [exact H3| |apply R4; cbn; lia].
+    apply (ksorted_block KO); [exact H4| |apply R5; cbn; lia].
+    eapply ksorted_homog. exact H5.
+  - eapply Forall_impl; [|apply (R3 2%nat); lia]. cbv beta. intros q Hq. unfold is_positional.
+    destruct (pkind q); cbn in Hq; try reflexivity; lia.
+Qed.
+
+Lemma dsufb_dsuffix ps : dsufb (map has_def ps) -> dsuffix ps.
+Proof.
+  induction ps as [|p ps IH]; cbn [map dsufb dsuffix]; [auto|]. intros [H1 H2]. split; [|apply IH; exact H2].
+  intros _ Hd. specialize (H1 Hd). apply Forall_forall. intros q Hq _.
+  rewrite Forall_forall in H1. apply H1. apply in_map. exact Hq.
+Qed.
+
+Lemma NoDup_app_intro {A} (a b : list A) :
+  NoDup a -> NoDup b -> (forall x, In x a -> ~ In x b) -> NoDup (a ++ b).
+Proof.
+  induction a as [|x a IH]; intros Ha Hb Hd; cbn [app]; [exact Hb|]. inversion Ha as [|? ? Hx Ha']; subst.
+  constructor.
+  - intros Hin. apply in_app_or in Hin. destruct Hin as [Hin|Hin]; [contradiction|]. apply (Hd x); [left; reflexivity|exact Hin].
+  - apply IH; auto. intros y Hy. apply Hd. right. exact Hy.
+Qed.
+
+Lemma star_witness (k : kind) (sl sr o : option param) :
+  (forall v, sl = Some v -> In v (flatten l) /\ pkind v = k) ->
+  (forall v, sr = Some v -> In v (flatten r) /\ pkind v = k) ->
+  (forall v, o = Some v -> (exists a, sl = Some a /\ pname v = pname a /\ pkind v = pkind a) \/ sr = Some v) ->
+  forall v, o = Some v -> pkind v = k /\ exists w, inab w /\ pname w = pname v /\ pkind w = k.
+Proof.
+  intros Hl Hr Ho v Hv. destruct (Ho v Hv) as [[a [Ea [Na Ka]]]|Er].
+  - destruct (Hl a Ea) as [Fa Kk]. split; [congruence|]. exists a. unfold inab. auto.
+  - destruct (Hr v Er) as [Fv Kk]. split; [exact Kk|]. exists v. unfold inab. auto.
+Qed.
+
+Lemma in_va_l v : varargs l = Some v -> In v (flatten l) /\ pkind v = VP.
+Proof.
+  intros E. destruct HKl as (_ & _ & H3 & _). split; [|apply H3; exact E]. unfold flatten. rewrite E.
+  do 2 (apply in_or_app; right). apply in_or_app. left. left. reflexivity.
+Qed.
+Lemma in_va_r v : varargs r = Some v -> In v (flatten r) /\ pkind v = VP.
+Proof.
+  intros E. destruct HKr as (_ & _ & H3 & _). split; [|apply H3; exact E]. unfold flatten. rewrite E.
+  do 2 (apply in_or_app; right). apply in_or_app. left. left. reflexivity.
+Qed.
+Lemma in_vk_l v : varkwargs l = Some v -> In v (flatten l) /\ pkind v = VK.
+Proof.
+  intros E. destruct HKl as (_ & _ & _ & _ & H5). split; [|apply H5; exact E]. unfold flatten. rewrite E.
+  do 4 (apply in_or_app; right). left. reflexivity.
+Qed.
+Lemma in_vk_r v : varkwargs r = Some v -> In v (flatten r) /\ pkind v = VK.
+Proof.
+  intros E. destruct HKr as (_ & _ & _ & _ & H5). split; [|apply H5; exact E]. unfold flatten. rewrite E.
+  do 4 (apply in_or_app; right). left. reflexivity.
+Qed.
+
+(* the assembled list is what the constructor accepts *)
+Theorem merger_rc_valid res : merger l r = Ok res -> validate (flatten res) = true.
+Proof.
+  unfold merger. fold st0. fold st2. intros E.
+  apply bind_ok in E. destruct E as [[[st3 il] ir] [E3 E]].
+  apply bind_ok in E. destruct E as [st4 [E4 E]].
+  apply bind_ok in E. destruct E as [st5 [E5 E]].
+  apply bind_ok in E. destruct E as [st6 [E6 E]].
+  destruct (add_star l r (m_xva_l (normalise_pok st6)) (m_xva_r (normalise_pok st6)) (varargs l) (varargs r)
+                     (normalise_pok st6)) as [va st8] eqn:E8.
+  destruct (add_star l r (m_xvk_l st8) (m_xvk_r st8) (varkwargs l) (varkwargs r) st8) as [vk st9] eqn:E9.
+  inversion E; subst res; clear E.
+  (* the two invariants through the stages *)
+  destruct AI_st2 as [A2 P2]. pose proof KI_st2 as K2.
+  destruct HKl as (L1 & L2 & _). destruct HKr as (R1 & R2 & _).
+  destruct (W_zip_pos (posargs l) (posargs r) (pokargs l) (pokargs r) st2 st3 il ir P2 A2 E3) as [A3 P3].
+  destruct (K_zip_pos (posargs l) (posargs r) (pokargs l) (pokargs r) st2 st3 il ir K2 L1 R1 E3) as (K3 & Il & Ir).
+  assert (Hil : Forall isPK il) by (apply Forall_forall; intros q Hq; rewrite Forall_forall in L2; apply L2, Il, Hq).
+  assert (Hir : Forall isPK ir) by (apply Forall_forall; intros q Hq; rewrite Forall_forall in R2; apply R2, Ir, Hq).
+  pose proof (W_zip_pok il ir st3 st4 A3 E4) as A4. pose proof (K_zip_pok il ir st3 st4 K3 Hil Hir E4) as K4.
+  pose proof (FI_of_AI st4 A4) as F4.
+  pose proof (FI_unmatched L st4 st5 F4 K4 E5) as F5. pose proof (K_unmatched L st4 st5 K4 E5) as K5.
+  pose proof (FI_unmatched R st5 st6 F5 K5 E6) as F6. pose proof (K_unmatched R st5 st6 K5 E6) as K6.
+  destruct (normalise_spec st6 K6) as (N1 & N2 & N3 & N4).
+  destruct (add_star_spec _ _ _ _ _ _ _ E8) as (S1 & S2 & S3 & S4).
+  destruct (add_star_spec _ _ _ _ _ _ _ E9) as (T1 & T2 & T3 & T4).
+  pose proof (star_witness VP _ _ _ in_va_l in_va_r S4) as Wva.
+  pose proof (star_witness VK _ _ _ in_vk_l in_vk_r T4) as Wvk.
+  unfold flatten. cbn [posargs pokargs varargs kwoargs varkwargs].
+  rewrite T1, T2, T3, S1, S2, S3, N4.
+  destruct K6 as [_ _ Kkwo Knd _ _]. destruct F6 as [Fnd Fdis Fpn Fkn Fds].
+  destruct (ksorted_blocks (m_pos (normalise_pok st6)) (m_pok (normalise_pok st6)) va (m_kwo st6) vk N1 N2
+              (fun v Hv => proj1 (Wva v Hv)) Kkwo (fun v Hv => proj1 (Wvk v Hv))) as [KS NP].
+  apply validate_spec. split; [exact KS|]. split.
+  - (* defaults *)
+    rewrite app_assoc. apply dsuffix_app. destruct (dsuffix_nonpos _ NP) as [D1 D2].
+    split; [|split; [exact D1|intros _; exact D2]].
+    apply dsufb_dsuffix. fold (outs (normalise_pok st6)). rewrite N3. exact Fds.
+  - (* names *)
+    rewrite app_assoc. unfold names_of. rewrite map_app. fold (outs (normalise_pok st6)). rewrite N3.
+    fold (names_of (outs st6)). fold (pn st6).
+    assert (Va : forall v, va = Some v -> ~ In (pname v) (pn st6) /\ ~ In (pname v) (kn st6)).
+    { intros v Hv. destruct (Wva v Hv) as [_ [w [Iw [Nw Kw]]]]. split; intros Hin.
+      - destruct (PN_witness _ (Fpn _ Hin)) as [p [Ip [Np Kp]]].
+        assert (X : pkind p = pkind w) by (apply cls_sep; congruence). rewrite Kw in X. destruct Kp; congruence.
+      - destruct (KN_witness _ (Fkn _ Hin)) as [p [Ip [Np Kp]]].
+        assert (X : pkind p = pkind w) by (apply cls_sep; congruence). rewrite Kw in X. destruct Kp as [Kp|[Kp|Kp]]; congruence. }
+    assert (Vk : forall v, vk = Some v -> ~ In (pname v) (pn st6) /\ ~ In (pname v) (kn st6)).
+    { intros v Hv. destruct (Wvk v Hv) as [_ [w [Iw [Nw Kw]]]]. split; intros Hin.
+      - destruct (PN_witness _ (Fpn _ Hin)) as [p [Ip [Np Kp]]].
+        assert (X : pkind p = pkind w) by (apply cls_sep; congruence). rewrite Kw in X. destruct Kp; congruence.
+      - destruct (KN_witness _ (Fkn _ Hin)) as [p [Ip [Np Kp]]].
+        assert (X : pkind p = pkind w) by (apply cls_sep; congruence). rewrite Kw in X. destruct Kp as [Kp|[Kp|Kp]]; congruence. }
+    assert (Vak : forall v w, va = Some v -> vk = Some w -> pname v <> pname w).
+    { intros v w Hv Hw E. destruct (Wva v Hv) as [_ [a [Ia [Na Ka]]]]. destruct (Wvk w Hw) as [_ [b [Ib [Nb Kb]]]].
+      assert (X : pkind a = pkind b) by (apply cls_sep; congruence). congruence. }
+    rewrite !map_app. fold (names_of (m_kwo st6)). fold (kn st6).
+    apply NoDup_app_intro; [exact Fnd| |].
+    + apply NoDup_app_intro.
+      * destruct va; cbn; repeat constructor. intros [].
+      * apply NoDup_app_intro; [exact Knd|destruct vk; cbn; repeat constructor; intros []|].
+        intros x Hx Hin. destruct vk as [w|]; [|destruct Hin]. destruct Hin as [<-|[]]. exact (proj2 (Vk w eq_refl) Hx).
+      * intros x Hx Hin. destruct va as [v|]; [|destruct Hx]. destruct Hx as [<-|[]].
+        apply in_app_or in Hin. destruct Hin as [Hin|Hin]; [exact (proj2 (Va v eq_refl) Hin)|].
+        destruct vk as [w|]; [|destruct Hin]. destruct Hin as [Hin|[]]. exact (Vak v w eq_refl eq_refl (eq_sym Hin)).
+    + intros x Hx Hin. apply in_app_or in Hin. destruct Hin as [Hin|Hin].
+      * destruct va as [v|]; [|destruct Hin]. destruct Hin as [<-|[]]. exact (proj1 (Va v eq_refl) Hx).
+      * apply in_app_or in Hin. destruct Hin as [Hin|Hin]; [exact (Fdis x Hx Hin)|].
+        destruct vk as [w|]; [|destruct Hin]. destruct Hin as [<-|[]]. exact (proj1 (Vk w eq_refl) Hx).
+Qed.
+End Walk.
